@@ -47,6 +47,20 @@ func locOrder(c *Ctx, a *flAgg) {
 				continue
 			}
 			cal := call.Call.StaticCallee()
+			if cal != nil && cal.Origin() != nil {
+				cal = cal.Origin()
+			}
+			if cal != nil && calleePkg(cal) == "slices" {
+				switch cal.Name() {
+				case "Sort":
+					sorted = true
+				case "Reverse":
+					reversed = true
+				default:
+					other = "slices." + cal.Name()
+				}
+				continue
+			}
 			if cal == nil || calleePkg(cal) != "sort" {
 				continue
 			}
